@@ -227,11 +227,17 @@ class PackedPointRecord:
                     self[name] = value[..., i]
             return
 
+        previous_array = self.array
         self._append_zeros_if_too_small(value)
-        if isinstance(key, str):
-            self[key][:] = value
-        else:
-            self.array[key] = value
+        try:
+            if isinstance(key, str):
+                self[key][:] = value
+            else:
+                self.array[key] = value
+        except Exception:
+            # a refused assignment must not leave the record grown
+            self.array = previous_array
+            raise
 
     def __getattr__(self, item):
         try:
